@@ -484,7 +484,7 @@ func C10() int {
 	r.Set("rule", "corpus of programs that together use every name-producing mechanism (globals, locals, parameters, functions, loop and range variables, slices incl. growth/copy, string subscripts, multi-return, nested calls, simultaneous assignment) x every single identifier role renamed to every member of the reserved set (harvested on this run from the scripts the current tree emits: every assignment target, function name, label, local and evaluated variable that is not a user identifier; plus shell/cmd vocabulary; plus case twins of the program's other identifiers); thorough adds pairs of roles. Oracle (metamorphic): the renamed program fails to transpile with an error, or its observation (bash: real run; batch: cmd.exe model) equals the default-named program's. Distinct by source text.")
 	r.Assumef("the default-named corpus programs are validated by this check only for clean execution and bash/batch agreement; their meaning is covered by C01-C05")
 	r.Assumef("Batch observations come from cmdmodel (case-insensitive variable and label names like cmd.exe); unmodelled runs are counted, not judged")
-	return r.Finish()
+	return finish(r)
 }
 
 func c10WithFiles(files map[string]string, m map[string]string) map[string]string {
